@@ -446,20 +446,17 @@ class VarsManager(object):
         :param overwrite: Boolean. If it's ``True``, the program will not throw a warning when overwrite a variable with the same name.
         """
         for name in bound_dic:
+            bound = Bound(*bound_dic[name], func=func)
+            # a bound on a tied name is a bound on the shared variable,
+            # which the fit knows under the first name of the tie
+            for i in self.same_list:
+                if name in i[1:]:
+                    name = i[0]
+                    break
             if name in self.bnd_dic:
                 if not overwrite:
                     warnings.warn("Overwrite bound of {}!".format(name))
-            self.bnd_dic[name] = Bound(*bound_dic[name], func=func)
-            if name in self.variables:
-                has_same = False
-                for i in self.same_list:
-                    if name in i[1:]:
-                        has_same = True
-                        break
-                if has_same:
-                    continue
-                # val = self.get(name).numpy()
-                # self.set(name, self.bnd_dic[name].get_y2x(val))
+            self.bnd_dic[name] = bound
 
     def _remove_bound(self, name):
         if name in self.variables:
